@@ -22,6 +22,7 @@ import sqlalchemy as sa
 from sqlalchemy import Computed, Identity
 from sqlalchemy import types as sqltypes
 from sqlalchemy.engine.default import DefaultDialect
+from sqlalchemy.sql.elements import quoted_name
 
 from alembic.operations import Operations
 from alembic.runtime.migration import MigrationContext
@@ -43,7 +44,13 @@ TYPES = {
     "bool_anon": lambda: sa.Boolean(create_constraint=True),
     "enum_ck": lambda: sa.Enum("a", "b", name="en1", create_constraint=True),
     "enum_nn": lambda: sa.Enum("x", "y", name="en2", native_enum=False, create_constraint=True),
+    # type *classes* (alter_column accepts Type[TypeEngine]); the code's `_type_affinity is DateTime`
+    # test is made on the object as passed
+    "int_cls": lambda: sa.Integer,
+    "dt_cls": lambda: sa.DateTime,
+    "text_cls": lambda: sa.Text,
 }
+TYPE_KEYS_CLASS = ["int_cls", "dt_cls", "text_cls"]
 TYPE_KEYS_COMMON = ["int", "str20", "text", "dt", "numeric", "bool"]
 TYPE_KEYS_CK = ["bool_ck", "bool_ck2", "bool_anon", "enum_ck", "enum_nn"]
 
@@ -57,7 +64,12 @@ DEFAULTS = {
     "id_3": lambda: Identity(start=3),
     "id_a": lambda: Identity(always=True),
     "comp": lambda: Computed("c9 + 1"),
+    # further spellings of a plain server default: empty string (falsy), SQL function, DefaultClause
+    "empty": lambda: "",
+    "fnow": lambda: sa.func.now(),
+    "dclause": lambda: sa.DefaultClause("7"),
 }
+DEFAULT_KEYS_PLAIN_EXTRA = ["empty", "fnow", "dclause"]
 DEFAULT_KEYS_PLAIN = ["five", "abc", "now", "expr"]
 DEFAULT_KEYS_IDENTITY = ["id0", "id_a2", "id_3", "id_a"]
 DEFAULT_KEYS_COMPUTED = ["comp"]
@@ -71,17 +83,25 @@ NEW_NAMES = ["c2", "c3", "c1"]  # c1 = rename to the same name
 
 _CTX = {}
 
+# configuration variants of the migration context (the statements must not depend on them)
+CONFIGS = {
+    None: {},
+    "alt": {"literal_binds": True, "transactional_ddl": False, "mssql_batch_separator": "", "oracle_batch_separator": ""},
+    "tddl": {"transactional_ddl": True, "mssql_batch_separator": "GO", "oracle_batch_separator": "/"},
+}
 
-def context(dialect):
-    if dialect not in _CTX:
+
+def context(dialect, config=None):
+    key = (dialect, config)
+    if key not in _CTX:
         buf = io.StringIO()
-        opts = {"as_sql": True, "output_buffer": buf}
+        opts = {"as_sql": True, "output_buffer": buf, **CONFIGS[config]}
         if dialect == "default":
             ctx = MigrationContext.configure(dialect=DefaultDialect(), opts=opts)
         else:
             ctx = MigrationContext.configure(dialect_name=dialect, opts=opts)
-        _CTX[dialect] = (ctx, Operations(ctx))
-    return _CTX[dialect]
+        _CTX[key] = (ctx, Operations(ctx))
+    return _CTX[key]
 
 
 def _sa_dialect(dialect):
@@ -98,7 +118,8 @@ def type_token(dialect, key):
     ck = (dialect, key)
     if ck not in _TY_CACHE:
         d = _sa_dialect(dialect)
-        t = sqltypes.to_instance(TYPES[key]())
+        raw = TYPES[key]()
+        t = sqltypes.to_instance(raw)
         name = d.type_compiler_instance.process(t) if hasattr(d, "type_compiler_instance") else d.type_compiler.process(t)
         # SQLAlchemy's schema-type rule: which CHECK constraint the type attaches to a column and
         # whether its create rule fires for this dialect (same test as toimpl._count_constraint)
@@ -112,7 +133,9 @@ def type_token(dialect, key):
         assert len(cks) <= 1
         tok = {
             "name": name,
-            "dt": t._type_affinity is sqltypes.DateTime,
+            # MySQLImpl._is_mysql_allowed_functional_default reads `_type_affinity` of the object as passed:
+            # on a type class that is a property object, never `DateTime`
+            "dt": getattr(raw, "_type_affinity", None) is sqltypes.DateTime,
             "ck": None if not cks else {"name": (str(cks[0].name) if isinstance(cks[0].name, str) else None)},
         }
         _TY_CACHE[ck] = tok
@@ -151,7 +174,7 @@ def to_lean(dialect, req):
     return {
         "table": req["table"],
         "column": req["column"],
-        "schema": req.get("schema"),
+        "schema": schema_text(req.get("schema")),
         "type": type_token(dialect, req.get("type")),
         "nullable": req.get("nullable"),
         "server_default": _tri_lean(dialect, req.get("server_default"), default_token),
@@ -167,10 +190,18 @@ def to_lean(dialect, req):
     }
 
 
+def schema_text(schema):
+    """'qn:s1' stands for sqlalchemy quoted_name('s1', quote=False)"""
+    if isinstance(schema, str) and schema.startswith("qn:"):
+        return schema[3:]
+    return schema
+
+
 def to_kwargs(req):
     kw = {}
     if req.get("schema") is not None:
-        kw["schema"] = req["schema"]
+        sch = req["schema"]
+        kw["schema"] = quoted_name(sch[3:], quote=False) if sch.startswith("qn:") else sch
     if req.get("type") is not None:
         kw["type_"] = TYPES[req["type"]]()
     if req.get("nullable") is not None:
@@ -209,7 +240,7 @@ def to_kwargs(req):
 
 def run_impl(dialect, req):
     """-> {"text": emitted script, "err": exception class name | None, "msg": str}"""
-    ctx, op = context(dialect)
+    ctx, op = context(dialect, req.get("config"))
     buf = io.StringIO()
     ctx.impl.output_buffer = buf
     err = None
